@@ -31,6 +31,14 @@ CLAIMED = {
    text="Decides, for every input, the construction of the result set: decision tables of the three execute* loops (unrolled twice, only the index loop-carried) show exactly one Execute/metadata/store/flag-update per registered lint with no skipping branch; a field-write census shows nobody else writes Results or the flags (flags only ever set to true); the status-flow analysis shows none of the 377 Execute methods nor the framework's can return nil or a status other than the seven named ones (zero value, literal without Status, conversion, arithmetic are violations or undecided); the flag switch is compared with the contract on statuses -1..8; the Lint*Ex entry points' nil guards, default registry and Version stamp (= module major version) and the recover net are decided from their decision tables. 'No hang' and panic-freedom of CRL/OCSP lints are outside this check.",
    note=TRUST+"Induction over the range loop relies on the checked fact that only the index is carried between iterations. Termination of lint bodies is not decided.",
    technique="decision-table extraction over go/ssa (bounded loop unrolling + induction side condition), interprocedural status/nil-flow, field-write census", ref="§3 C01"),
+ "C13": dict(level="proof",
+   text="Decision tables of LintSource.FromString and UnmarshalJSON evaluated on the value of every declared LintSource constant and on undeclared strings (declared ⇒ accepted as itself, anything else ⇒ Unknown/error); decision tables of SourceList.FromString (Unknown ⇒ error, blanks skipped) and of lintNamesToMap (trimmed name, all three lookups, unknown ⇒ error); Filter and the CLI route both source and name lists through them and propagate the error; every registration uses a declared source; every lint name in every RegisterProfile call is registered. All obligations must discharge.",
+   note=TRUST+"encoding/json and strings.TrimSpace/Split are trusted.",
+   technique="decision-table extraction over go/ssa evaluated on the enumerated constant set; registration/profile census", ref="§3 C13"),
+ "C14": dict(level="other",
+   text="Structural conditions for reversibility decided from the code: label table of LintStatus.String on all declared constants and out-of-range values against the published labels (non-empty, distinct); StatusLabelToLintStatus has one String()→status entry per constant and is never modified; MarshalJSON/UnmarshalJSON decision tables (unknown label ⇒ error, no default); struct tags of ResultSet/LintResult/LintMetadata/Profile and the three lint structs (round-trip fields keyed uniquely, function fields excluded); WriteJSON's decision table encodes each element of all three listings exactly once; LintSource decodes only declared sources. encoding/json's own behaviour (U+FFFD, escaping) is trusted, not decided.",
+   note=TRUST+"encoding/json honours MarshalJSON/UnmarshalJSON and struct tags as documented.",
+   technique="decision-table extraction over go/ssa, struct-tag and constant-table census", ref="§3 C14"),
 }
 
 NOT_YET = "check not built yet in this session (see DESIGN.md §3 for the planned static rule)"
